@@ -95,14 +95,14 @@ Qed.
 Lemma pyidx_nat len i : i < len -> pyidx len (Z.of_nat i) = Some i.
 Proof.
   intros H. unfold pyidx. assert (E : ((0 <=? Z.of_nat i) && (Z.of_nat i <? Z.of_nat len))%Z = true).
-  { apply andb_true_intro. split; [apply Z.leb_le; lia|apply Z.ltb_lt; lia]. }
+  { rewrite andb_true_iff, Z.leb_le, Z.ltb_lt. lia. }
   rewrite E. rewrite Nat2Z.id. reflexivity.
 Qed.
 
 Lemma rau_ok hpf g v r l : forall s i, vgraph s r = Some g -> i + length l <= length (iol KOut s g) ->
   snd (rau_outputs all_fixed s hpf g v r i l) = Ok tt.
 Proof.
-  induction l as [|o t IH]; intros s i Hg Hlen; simpl; [reflexivity|]. simpl in Hlen.
+  induction l as [|o t IH]; intros s i Hg Hlen; simpl; [reflexivity|]. cbn [length] in Hlen.
   destruct (o =? v); [|apply IH; [assumption|lia]].
   unfold io_setitem. rewrite pyidx_nat by lia.
   assert (Hc : io_check KOut s hpf g r = true).
@@ -115,7 +115,7 @@ Qed.
 Lemma fr_rau hpf g v r l e : forall s i, i + length l <= length (iol KOut s g) ->
   snd (rau_outputs all_fixed s hpf g v r i l) = Raise e -> fst (rau_outputs all_fixed s hpf g v r i l) = s.
 Proof.
-  induction l as [|o t IH]; intros s i Hlen; simpl; [discriminate|]. simpl in Hlen.
+  induction l as [|o t IH]; intros s i Hlen; simpl; [discriminate|]. cbn [length] in Hlen.
   destruct (o =? v); [|apply IH; lia].
   pose proof (fr_io_setitem KOut s hpf g (Z.of_nat i) r) as Hfr.
   unfold io_setitem in *. rewrite pyidx_nat in * by lia.
@@ -128,7 +128,7 @@ Qed.
 Lemma with_ow_id h : with_ow h (how h) = h.
 Proof. destruct h; reflexivity. Qed.
 
-Ltac lifted L := unfold lift_ow; intros [= <- Hr]; rewrite L by (try assumption; exact Hr); apply with_ow_id.
+Ltac lifted L := unfold lift_ow; intros [= <- Hr]; erewrite L; [apply with_ow_id|..]; try eassumption; try exact Hr.
 Ltac chainF := repeat match goal with
   | |- (if ?b then R ?h ?e else _) = _ -> _ => destruct b; [intros [= <- _]; reflexivity|] end.
 
